@@ -60,6 +60,13 @@ pub fn kill_and_poll(ctx: &mut Ctx, sim: &mut Sim) -> Option<(String, String)> {
             ctx.rep.count("kill_switch_handed_to_a_server_with_connections");
         }
     }
+    if sim.kill.is_some() && sim.step % 4 == 1 {
+        // the application re-arms the server with a NEW kill switch; that one is signalled
+        ctx.rep.count("kill_switch_replaced_before_the_signal");
+        if let Err(e) = sim.replace_kill_switch() {
+            return Some(("kill-switch-refused".into(), format!("{} ({})", e, state)));
+        }
+    }
     sim.signal_kill();
     for k in 0..5 {
         if !sim.ready() {
